@@ -21,7 +21,16 @@ func Check(r *ev.Run, replay string) {
 	}
 	st := &c01.Stats{}
 	var n int32
-	c01.Pool(func(y func(progen.Program)) { progen.C02(r.Thorough(), y) }, func(env *rt.Env, p progen.Program) {
+	ops := 3
+	if r.Thorough() {
+		ops = 4
+	}
+	c01.Pool(func(y func(progen.Program)) {
+		progen.C02(r.Thorough(), y)
+		// which binding a name inside a closure denotes: captures, later shadowing declarations and
+		// uses from deeper blocks of the inner function (shared with C01's scoping families)
+		progen.F4c(ops, y)
+	}, func(env *rt.Env, p progen.Program) {
 		if atomic.AddInt32(&n, 1)%97 == 1 {
 			r.Sample(map[string]string{"case": p.Meta, "source": p.Src()})
 		}
@@ -34,5 +43,5 @@ func Check(r *ev.Run, replay string) {
 	r.Set("max_nesting_depth", depth)
 	r.Set("model_values", int(st.Values))
 	r.Set("model_errors", int(st.Errors))
-	r.Set("rule", fmt.Sprintf("every combination of nesting depth 1..%d x owning level x (each enclosing function calls the next in place | returns it uncalled) x read/write x 11 invocation routes (direct, from a list, from a map by index and by attribute, as list.map callback, inside a try callback, through call(), spawn(), fn.spawn(), from Go with vm.Get+vm.Call, inside a nested callback); the escaped closure is invoked twice and a sibling closure over the same binding is read afterwards; distinct = distinct model outcomes", depth))
+	r.Set("rule", fmt.Sprintf("every combination of nesting depth 1..%d x owning level x (each enclosing function calls the next in place | returns it uncalled) x read/write x 11 invocation routes (direct, from a list, from a map by index and by attribute, as list.map callback, inside a try callback, through call(), spawn(), fn.spawn(), from Go with vm.Get+vm.Call, inside a nested callback); the escaped closure is invoked twice and a sibling closure over the same binding is read afterwards; plus the binding family F4c: every placement of up to %d operations (declare, assign, read, ++, +=, read into another name) on a name that is a local of the enclosing function over 7 slots of the inner function (two top-level slots, two nested blocks, a loop body, trailing slots), the enclosing function printing its own variable after each call; distinct = distinct model outcomes", depth, ops))
 }
